@@ -71,7 +71,9 @@ class Interp:
         """Is pc (and cond) satisfiable?  `unknown` counts as feasible (sound: paths are only dropped on unsat).
         Incremental: one push level per path-condition conjunct, shared along the DFS of paths."""
         self.stats["feas_checks"] += 1
-        pc = [c for c in st.pc if id(c) not in st.qfacts]   # quantified facts left out (weakening is sound here)
+        pc = [c for c in st.pc if id(c) not in st.qfacts and not _hard(c)]   # quantified / regex facts left out (weakening is sound here)
+        if cond is not None and _hard(cond):
+            return True
         if self._inc is None:
             sv = z3.Solver()
             sv.set("timeout", FEAS_TIMEOUT_MS)
@@ -933,6 +935,8 @@ class Interp:
             return k(st, self.module_attr(st, v, name, fr))
         if isinstance(v, ClassV):
             return k(st, self.class_attr(st, v.q, name, None, fr))
+        if isinstance(v, SuperV) and isinstance(v.recv, ClassV) and name == "__new__":
+            return k(st, BuiltinV("$namedtuple_new"))
         if isinstance(v, SuperV):
             r = self.w.find_attr(self.hint_of(st, v.recv), name, after=v.after)
             if r is None:
@@ -1372,6 +1376,34 @@ class Interp:
             hint = q
         st.pc.append(z3.Or(c, is_none(v.t)) if opt else c)
         return Sym(v.t, hint)
+
+
+_HARD = {}
+_HARD_KINDS = {getattr(z3, n) for n in dir(z3) if n.startswith(("Z3_OP_SEQ_", "Z3_OP_RE_", "Z3_OP_STR_", "Z3_OP_STRING_"))
+               and n not in ("Z3_OP_SEQ_LENGTH", "Z3_OP_SEQ_CONCAT", "Z3_OP_SEQ_UNIT", "Z3_OP_SEQ_EMPTY")}
+
+
+def _hard(c):
+    """conjuncts that can make z3's sequence solver ignore its timeout are left out of *feasibility*
+    queries (sound: fewer hypotheses => more paths explored); obligations always keep the full pc"""
+    r = _HARD.get(c.get_id())
+    if r is not None:
+        return r
+    seen = set(); stack = [c]; r = False
+    while stack:
+        x = stack.pop()
+        if x.get_id() in seen:
+            continue
+        seen.add(x.get_id())
+        if z3.is_quantifier(x):
+            stack.append(x.body()); continue
+        if z3.is_app(x):
+            if x.decl().kind() in _HARD_KINDS:
+                r = True; break
+            stack.extend(x.children())
+    _HARD[c.get_id()] = r
+    _ALIVE.append(c)
+    return r
 
 
 class _Origin(Sym):
